@@ -176,6 +176,8 @@ class Checker:
                                "obligation": "a syntax error is positioned inside the text"})
             return False
         if st in ("panic", "timeout", "crash", "missing"):
+            if st == "crash" and "overflowed its stack" in str(d.get("stderr", "")):
+                st = "stack-overflow"       # deep nesting: the recursive-descent parser exhausts the (256 MB) stack
             self.violation("C19-parser-" + st, {"input": text, "origin": origin, "impl_output": d,
                            "obligation": "the parser terminates with an AST or a syntax error"})
             return False
@@ -281,7 +283,7 @@ def model_stream(run, ck, n):
             continue
         if mt is not None and mt[1] == "ok" and mt[2] == "0":
             ck.violation("C19-model-parse-unshaped", {"kind": "correspondence-broken", "input": c["text"], "model_output": mt,
-                         "obligation": "every AST the model parser returns satisfies shaped_core (not yet a theorem: checked here)"}, found_input=False)
+                         "obligation": "every AST the extracted model parser returns satisfies shaped_core (theorem parse_shaped_core, re-checked on the extracted code)"}, found_input=False)
             continue
         if mt is None or mt[1] != "ok" or mt[3] != c["sexp"]:
             ck.violation("C19-model-parse", {"kind": "correspondence-broken", "input": c["text"], "ast": c["sexp"], "model_output": mt,
@@ -289,7 +291,13 @@ def model_stream(run, ck, n):
             continue
         if not ck.totality(c["text"], d, "model-stream"):
             if d.get("st") == "err":
-                ck.violation("C19-valid-program-rejected", {"kind": "correspondence-broken", "input": c["text"], "impl_output": d,
+                words = " ".join(G.js_tokens(c["text"]))
+                cls = "C19-valid-program-rejected"
+                if d.get("kind") == "Lex" and "regular expression" in d.get("msg", "") and "=> { } ) /" in words:
+                    # `(() => {}) / 2`: the `/` after a parenthesised arrow function with an empty block body is lexed as
+                    # the start of a regular expression (class computed from the rejected text and the error)
+                    cls = "C19-parse-div-after-empty-arrow"
+                ck.violation(cls, {"kind": "correspondence-broken", "input": c["text"], "impl_output": d,
                              "model_output": "accepted: " + c["sexp"][:300],
                              "obligation": "boa's parser accepts what the model parser accepts (generated valid program)"}, found_input=False)
             continue
@@ -365,7 +373,7 @@ def mutant_stream(run, ck, model_bases, wide_bases, n):
             ck.stats["model-parse-shape:" + {"1": "parser_shaped", "2": "shaped_core_only", "0": "UNSHAPED"}.get(m[2], "?")] += 1
             if m[2] == "0":
                 ck.violation("C19-model-parse-unshaped", {"kind": "correspondence-broken", "input": t, "model_output": m,
-                             "obligation": "every AST the model parser returns satisfies shaped_core (not yet a theorem: checked here)"}, found_input=False)
+                             "obligation": "every AST the extracted model parser returns satisfies shaped_core (theorem parse_shaped_core, re-checked on the extracted code)"}, found_input=False)
         accepted = ck.totality(t, d, "mutant")
         key = ("model-ok" if model_ok else "model-err") + "/" + ("boa-ok" if accepted else "boa-err")
         ck.stats["mutant:" + key] += 1
